@@ -638,3 +638,126 @@ Proof.
   rewrite (to_seq_acc_shift (map snd sel) (map snd bs) (snd rc)) by assumption.
   reflexivity.
 Qed.
+
+(* ------------------------------------------------------------------------- *)
+(** * the prange over mu0 of generic_assemble_core_vec (incl. mirrored writes) *)
+
+Close Scope Z_scope.
+
+Lemma list_nat_eqb_spec : forall a b, list_nat_eqb a b = true <-> a = b.
+Proof.
+  induction a as [|x a IH]; intros [|y b]; simpl; split; intro H; try reflexivity; try discriminate.
+  - apply andb_true_iff in H. destruct H as [H1 H2]. apply Nat.eqb_eq in H1. apply IH in H2. subst. reflexivity.
+  - injection H as -> ->. rewrite Nat.eqb_refl. simpl. apply IH. reflexivity.
+Qed.
+
+Lemma eloc_eqb_spec : forall a b, eloc_eqb a b = true <-> a = b.
+Proof.
+  intros [a1 a2] [b1 b2]. unfold eloc_eqb. simpl. rewrite andb_true_iff, list_nat_eqb_spec, Nat.eqb_eq.
+  split; [intros [-> ->]; reflexivity | intro E; injection E; auto].
+Qed.
+
+Lemma hd_app_nonempty : forall (mu : list nat) m, mu <> [] -> hd 0 (mu ++ [m]) = hd 0 mu.
+Proof. intros [|x mu] m H; [congruence | reflexivity]. Qed.
+
+Section CoreProofs.
+  Variable V : Type.
+  Variable nc0 nc1 : nat.
+  Variable B : list Z -> list Z -> nat -> V.
+
+  (* which rows of `entries` (first index) the operations of the kernel loops touch *)
+  Definition heads_ok (sym : bool) (mu tmu : list nat) (o : op eloc V) : Prop :=
+    match o with
+    | Wr l _ => hd 0 (fst l) = hd 0 mu
+    | Cp d s => sym = true /\ hd 0 (fst d) = hd 0 tmu /\ hd 0 (fst s) = hd 0 mu
+    end.
+
+  Lemma kern_heads : forall sym rest allz mu tmu i j o,
+    mu <> [] -> tmu <> [] -> In o (kern nc0 nc1 B sym rest allz mu tmu i j) -> heads_ok sym mu tmu o.
+  Proof.
+    intros sym rest. induction rest as [|[b t] rest IH]; intros allz mu tmu i j o Hmu Htmu Hin.
+    - simpl in Hin. apply in_app_or in Hin. destruct Hin as [Hin|Hin].
+      + unfold blk_ops in Hin. apply in_map_iff in Hin. destruct Hin as [c [<- _]]. reflexivity.
+      + destruct (sym && negb allz) eqn:E; [|destruct Hin].
+        apply andb_true_iff in E. destruct E as [Es _].
+        unfold mirror_ops in Hin. apply in_flat_map in Hin. destruct Hin as [row [_ Hin]].
+        apply in_map_iff in Hin. destruct Hin as [col [<- _]]. simpl. auto.
+    - simpl in Hin. apply in_flat_map in Hin. destruct Hin as [m [_ Hin]].
+      destruct (sym && allz && (snd (nth m b (0%Z, 0%Z)) - fst (nth m b (0%Z, 0%Z)) >? 0)%Z); [destruct Hin|].
+      apply IH in Hin.
+      + destruct o as [l v|d s]; simpl in *.
+        * rewrite Hin. apply hd_app_nonempty, Hmu.
+        * destruct Hin as [Hs [Hd Hsrc]]. rewrite Hd, Hsrc.
+          rewrite !hd_app_nonempty by assumption. auto.
+      + intro E. apply app_eq_nil in E. destruct E; discriminate.
+      + intro E. apply app_eq_nil in E. destruct E; discriminate.
+  Qed.
+
+  Definition diag0 (b0 : list (Z * Z)) (m : nat) : Z := (snd (nth m b0 (0, 0)) - fst (nth m b0 (0, 0)))%Z.
+
+  (* the iteration mu0 that owns row r of `entries` *)
+  Definition core_own (sym : bool) (lv0 : level) (l : eloc) : nat :=
+    let r := hd 0 (fst l) in
+    if sym && (diag0 (fst lv0) r >? 0)%Z then nth r (snd lv0) 0 else r.
+
+  (* transp0 really is the index of the transposed pattern entry *)
+  Definition transp_ok (lv0 : level) : Prop :=
+    forall m, m < length (fst lv0) ->
+      nth m (snd lv0) 0 < length (fst lv0) /\
+      nth (nth m (snd lv0) 0) (fst lv0) (0%Z, 0%Z) = swap (nth m (fst lv0) (0%Z, 0%Z)).
+
+  Lemma core_owned : forall sym lv0 rest,
+    NoDup (fst lv0) -> transp_ok lv0 ->
+    owned eloc V (core_own sym lv0) (core_tasks nc0 nc1 B sym (lv0 :: rest)).
+  Proof.
+    intros sym [b0 t0] rest Hnd Htr i t Hi o Ho l Hl. simpl in *.
+    rewrite nth_error_map in Hi.
+    destruct (nth_error (seq 0 (length b0)) i) as [m|] eqn:Em; [|discriminate].
+    simpl in Hi. injection Hi as <-.
+    assert (Hlt : i < length b0).
+    { rewrite <- (seq_length (length b0) 0). apply nth_error_Some. rewrite Em. discriminate. }
+    assert (m = i).
+    { apply nth_error_nth with (d := 0) in Em. rewrite seq_nth in Em by exact Hlt. lia. }
+    subst m. unfold core_task in Ho. simpl fst in Ho; simpl snd in Ho.
+    set (d := (snd (nth i b0 (0%Z, 0%Z)) - fst (nth i b0 (0%Z, 0%Z)))%Z) in *.
+    destruct (sym && (d >? 0)%Z) eqn:Eskip; [destruct Ho|].
+    apply kern_heads in Ho; [|discriminate|discriminate].
+    destruct (Htr i Hlt) as [Hti Hswap]. simpl in Hti, Hswap.
+    assert (Hrow_i : forall l' : eloc, hd 0 (fst l') = i -> core_own sym (b0, t0) l' = i).
+    { intros l' E. unfold core_own, diag0. simpl fst; simpl snd. rewrite E. fold d. rewrite Eskip. reflexivity. }
+    destruct o as [l0 v|dst src]; simpl in Ho, Hl.
+    - destruct Hl as [<-|[]]. apply Hrow_i. exact Ho.
+    - destruct Ho as [Hs [Hd Hsrc]]. subst sym. simpl in Eskip.
+      destruct Hl as [<-|[<-|[]]]; [|apply Hrow_i; exact Hsrc].
+      unfold core_own, diag0. simpl fst; simpl snd.
+      rewrite Hd. simpl hd. simpl andb. rewrite Hswap. unfold swap. simpl fst; simpl snd.
+      rewrite Z.gtb_ltb in Eskip. apply Z.ltb_ge in Eskip.
+      destruct (Z.eq_dec d 0) as [Ez|Enz].
+      + (* on the block diagonal: transp0[i] = i *)
+        assert (Eti : nth i t0 0 = i).
+        { apply (proj1 (NoDup_nth b0 (0%Z, 0%Z)) Hnd); [exact Hti | exact Hlt |].
+          rewrite Hswap. destruct (nth i b0 (0%Z, 0%Z)) as [a c]. unfold swap, d in *. simpl in *.
+          f_equal; lia. }
+        replace (fst (nth i b0 (0%Z, 0%Z)) - snd (nth i b0 (0%Z, 0%Z)) >? 0)%Z with false
+          by (symmetry; rewrite Z.gtb_ltb; apply Z.ltb_ge; unfold d in Ez; lia).
+        exact Eti.
+      + (* strictly below: the mirror row is skipped by its own iteration and transp0 is an involution *)
+        replace (fst (nth i b0 (0%Z, 0%Z)) - snd (nth i b0 (0%Z, 0%Z)) >? 0)%Z with true
+          by (symmetry; rewrite Z.gtb_ltb; apply Z.ltb_lt; unfold d in *; lia).
+        destruct (Htr (nth i t0 0) Hti) as [Htti Hswap2]. simpl in Htti, Hswap2.
+        apply (proj1 (NoDup_nth b0 (0%Z, 0%Z)) Hnd); [exact Htti | exact Hlt |].
+        rewrite Hswap2, Hswap. apply swap_swap.
+  Qed.
+
+  Theorem prange_schedule_independent_l : forall sym lv0 rest s1 s2,
+    NoDup (fst lv0) -> transp_ok lv0 ->
+    interleave (core_tasks nc0 nc1 B sym (lv0 :: rest)) s1 ->
+    interleave (core_tasks nc0 nc1 B sym (lv0 :: rest)) s2 ->
+    forall m l, exec eloc_eqb s1 m l = exec eloc_eqb s2 m l.
+  Proof.
+    intros sym lv0 rest s1 s2 Hnd Htr H1 H2.
+    apply (sched_own_independent eloc V eloc_eqb eloc_eqb_spec (core_own sym lv0) _ s1 s2
+             (core_owned sym lv0 rest Hnd Htr) H1 H2).
+  Qed.
+
+End CoreProofs.
